@@ -103,7 +103,7 @@ enum Ty {
     Any,
 }
 
-const EVENT_PATHS: &[&str] = &[".a", ".b", ".s", ".n", ".t", ".arr", ".obj", ".obj.x", ".arr[0]", ".arr[-1]", ".a.b", ".q", "%m", "%m.k"];
+const EVENT_PATHS: &[&str] = &[".a", ".b", ".s", ".n", ".t", ".arr", ".obj", ".obj.x", ".arr[0]", ".arr[-1]", ".a.b", ".q", "%m", "%m.k", "%a", ".m", "%a.b"];
 const VARS: &[&str] = &["x", "y", "z", "k", "v"];
 
 pub struct Gen<'a> {
@@ -395,7 +395,7 @@ impl<'a> Gen<'a> {
                 let v = *self.rng.pick(VARS);
                 (format!("{v}.{}", self.rng.pick(&["a", "b", "c[1]"])), true)
             }
-            _ => ((*self.rng.pick(&[".a", ".b", ".out", ".obj.y", ".arr[1]", ".arr[-1]", ".a.b", ".n", "%m", "%m.k", ".new[2]"])).to_string(), false),
+            _ => ((*self.rng.pick(&[".a", ".b", ".out", ".obj.y", ".arr[1]", ".arr[-1]", ".a.b", ".n", "%m", "%m.k", ".new[2]", "%a", ".m.k", "%out"])).to_string(), false),
         }
     }
 
@@ -406,12 +406,13 @@ impl<'a> Gen<'a> {
             // infallible assignment
             self.stats.push("iasg");
             let rhs = self.fallible(ty, depth);
-            let errv = *self.rng.pick(&["err", "e2", "_"]);
+            // the error target is a variable, `_`, or (seeded C15-1 / C16-2) an event or metadata path
+            let errv = *self.rng.pick(&["err", "e2", "_", "err", ".err", ".a", "%m.e", ".obj.x"]);
             if is_var && !t.contains('.') {
                 self.vars.retain(|(n, _)| n != &t);
                 self.vars.push((t.clone(), Ty::Any));
             }
-            if errv != "_" {
+            if errv != "_" && !errv.starts_with(['.', '%']) {
                 self.vars.retain(|(n, _)| n != errv);
                 self.vars.push((errv.to_string(), Ty::Any));
             }
